@@ -94,6 +94,9 @@ type GPlan struct {
 	// forwarded agent - is served from start to end; then run 0 goes on
 	Overlap   bool `json:"overlap,omitempty"`
 	OverlapAt int  `json:"overlap_at,omitempty"`
+	// OverlapBNoKey: run 1 is a request for the same login name as run 0, on a connection whose forwarded agent
+	// does not hold that user's key (somebody else asking for the same account at the same moment)
+	OverlapBNoKey bool `json:"overlap_b_no_key,omitempty"`
 	// Enum, for C04: enumerate every single-fault placement of run 0. Only, when
 	// set, restricts the enumeration to one placement (the minimised replay).
 	Enum bool       `json:"enum,omitempty"`
@@ -338,7 +341,7 @@ func genWorld(r *sim.Rng, odd bool, faultRate float64, maxRuns int) *GPlan {
 			run.LogName = lookalike
 		}
 		if i > 0 && r.Bool(0.15) {
-			run.DirChange = pick(r, []string{"rotate", "rotate", "delete", "register"})
+			run.DirChange = pick(r, []string{"rotate", "rotate", "delete", "register", "add_pub_alt"})
 		}
 		if p.Overlap && i < 2 {
 			// the overlapping pair: two honest requests, preferably of different users
@@ -346,6 +349,10 @@ func genWorld(r *sim.Rng, odd bool, faultRate float64, maxRuns int) *GPlan {
 			run.DirChange, run.AdvanceS = "", 0
 			if i == 1 && len(p.Users) > 1 {
 				run.LogName = p.Users[1].Name
+			}
+			if i == 1 && r.Bool(0.4) {
+				run.LogName = p.Runs[0].LogName
+				p.OverlapBNoKey = true
 			}
 		}
 		p.Runs = append(p.Runs, run)
